@@ -86,6 +86,7 @@ type State struct {
 	// errSeen: the errors callees reported on this path since the last cut
 	// (site -> "that error was nil"); see Exec.errDropped
 	errSeen map[string]string
+	errVal  map[string][2]string // the error values themselves (tag, box): conditional tolerance
 }
 
 // nameBind: the current value of a source variable, or (cell) a pointer to the
@@ -137,6 +138,10 @@ func (s *State) clone() *State {
 		n.errSeen = make(map[string]string, len(s.errSeen))
 		for k, v := range s.errSeen {
 			n.errSeen[k] = v
+		}
+		n.errVal = make(map[string][2]string, len(s.errVal))
+		for k, v := range s.errVal {
+			n.errVal[k] = v
 		}
 	}
 	n.univ = s.cloneUniv()
